@@ -36,7 +36,7 @@ def bitfield_spec(ns):
         for h, fn in (("get_in", "get"), ("raw_get_in", "raw_get"), ("set_in", "set"), ("raw_set_in", "raw_set"),
                       ("get_bit_in", "get_bit"), ("raw_get_bit_in", "raw_get_bit"),
                       ("set_bit_in", "set_bit"), ("raw_set_bit_in", "raw_set_bit")):
-            spec.append(dict(harness=m + h, name="bitfield_unit::%s::post+frame+safety[N=%d]" % (fn, n),
+            spec.append(dict(harness=m + h, twin=m + h[:-3] + "_twin", name="bitfield_unit::%s::post+frame+safety[N=%d]" % (fn, n),
                              kind=CONTRACT, fn="%s:%s::%s" % (BF_FILE, U, fn)))
         for h, fn in (("get_region_gt64", "get"), ("set_region_gt64", "set"),
                       ("raw_get_region_gt64", "raw_get"), ("raw_set_region_gt64", "raw_set")):
@@ -49,7 +49,7 @@ def bitfield_spec(ns):
                          kind=LEMMA, expect_stubs=2, fn="over contracts of get,set"))
         m = "bitfield_unit_lifted::contracts::n%d::" % n
         for fn in ("get_const", "raw_get_const", "set_const", "raw_set_const"):
-            spec.append(dict(harness=m + fn + "_in", name="bitfield_unit::%s::post+frame+safety[N=%d]" % (fn, n),
+            spec.append(dict(harness=m + fn + "_in", twin=m + fn + "_twin", name="bitfield_unit::%s::post+frame+safety[N=%d]" % (fn, n),
                              kind=CONTRACT, fn="%s:%s::%s (rule L1)" % (BF_FILE, U, fn)))
             spec.append(dict(harness=m + fn + "_region_gt64", name="bitfield_unit::%s::post@region_gt64[N=%d]" % (fn, n),
                              kind=WITNESS, fn="%s:%s::%s (rule L1)" % (BF_FILE, U, fn)))
